@@ -384,6 +384,75 @@ func c09Case(c *vc.Ctx, idx int) {
 			r.checkHead(blk, false)
 			continue
 		}
+		if (h == 9 && !random) || (random && h > 2 && rnd.Intn(6) == 0) {
+			// payloads that are not a direct child of the recorded head, not by this block's proposer or under another beacon
+			// root, forced into FinalizeBlock past ProcessProposal (as block-sync and replay do): none may become head
+			type nonChild struct {
+				name string
+				prop int
+				f    func(p *goatxtypes.ExecutionPayload) bool
+			}
+			vars := []nonChild{
+				{"number+2", 0, func(p *goatxtypes.ExecutionPayload) bool { p.BlockNumber++; return true }},
+				{"number of the head itself", 0, func(p *goatxtypes.ExecutionPayload) bool { p.BlockNumber--; return true }},
+				{"parent = grandparent", 0, func(p *goatxtypes.ExecutionPayload) bool {
+					if r.head == nil {
+						return false
+					}
+					p.ParentHash = append([]byte(nil), r.head.ParentHash...)
+					return true
+				}},
+				{"another beacon root", 0, func(p *goatxtypes.ExecutionPayload) bool {
+					b := append([]byte(nil), p.BeaconRoot...)
+					b[len(b)-1] ^= 1
+					p.BeaconRoot = b
+					return true
+				}},
+				{"authored by the other validator", 1, func(p *goatxtypes.ExecutionPayload) bool {
+					p.FeeRecipient = append([]byte(nil), w.Vals[1].Cons...)
+					return true
+				}},
+			}
+			if random {
+				vars = vars[rnd.Intn(len(vars)):][:1]
+			}
+			for _, v := range vars {
+				v := v
+				applied := false
+				blk, err := ch.Step(world.StepOpts{Reqs: reqs, NoProcess: true, Mutate: func(txs [][]byte) [][]byte {
+					p := world.DecodeBlockTx(w, txs)
+					if p == nil || !v.f(p) {
+						return txs
+					}
+					world.Rehash(p)
+					tx, err := ch.BlockTx(v.prop, ch.Height+1, w.ValAddrStr(v.prop), p)
+					if err != nil {
+						return txs
+					}
+					applied = true
+					return append([][]byte{tx}, txs[1:]...)
+				}})
+				if err != nil {
+					r.viol("block processing failed on a payload that is not a child of the head: "+v.name, err.Error())
+					return
+				}
+				if _, err := tw.Apply(blk, blk.Req.Txs); err != nil {
+					c.Inconclusive("twin: %v", err)
+					return
+				}
+				if !applied {
+					r.checkHead(blk, true)
+					continue
+				}
+				c.Count("non_child_payloads_forced", 1)
+				c.Nontrivial("forced non-child payload: %s", v.name)
+				if blk.BlockOK {
+					r.viol("a payload that is not a valid child of the head was executed: "+v.name, "")
+				}
+				r.checkHead(blk, false)
+			}
+			continue
+		}
 		if inject {
 			if !r.faultyHeight(cl, reqs) {
 				return
